@@ -249,7 +249,9 @@ def running_phase(s, dev, step, platform):
     dev.pending_link = None
     last = None
     for _ in range(2):
-        r, e, _ = s.request(req)
+        # (client_gone: the client of these requests has hung up by the time the manager
+        # writes its reply - the manager's course does not depend on that)
+        r, e, _ = s.request(req, client_gone=bool(step.get("client_gone")))
         if isinstance(e, RequestHandlerShutdown):
             return "interrupt"
         if e is not None:
@@ -259,7 +261,7 @@ def running_phase(s, dev, step, platform):
     return "served"
 
 
-def load_pin_as_the_manager_does(platform, path, force):
+def load_pin_as_the_manager_does(platform, path, force, default=None):
     """the PIN object as manager_ledger.py / manager_sgx.py build it: command line parsed
     by user.options.UserOptionParser (-P <file>, -X), default PIN from the environment"""
     import importlib
@@ -268,7 +270,7 @@ def load_pin_as_the_manager_does(platform, path, force):
     argv = [mod.__name__ + ".py", "-P", path] + (["-X"] if force else [])
     saved_argv, saved_pin = sys.argv, os.environ.get("PIN")
     sys.argv = argv
-    os.environ["PIN"] = DEFAULT_PIN.decode()
+    os.environ["PIN"] = (default or DEFAULT_PIN).decode()
     try:
         if platform == "sgx":
             opts = UserOptionParser("mgr", with_pin=True, with_tcpconn=True, host_name="SGX",
@@ -497,6 +499,15 @@ def gen_histories(spec, tmpdir):
                 cases.append({"platform": platform, "start": start, "steps": [
                     {"platform": platform, "force": force, "running": lk, "fs_fault": "write"},
                     {"platform": platform}]})
+                # the same, and the client whose request triggers the repair has hung up
+                # by the time the reply is written
+                cases.append({"platform": platform, "start": start, "steps": [
+                    {"platform": platform, "force": force, "running": lk, "client_gone": True},
+                    {"platform": platform}]})
+                cases.append({"platform": platform, "start": start, "steps": [
+                    {"platform": platform, "force": force, "running": lk, "client_gone": True,
+                     "v1": True},
+                    {"platform": platform, "v1": True}]})
             # fault-free change followed by restarts (incl. another forced change)
             cases.append({"platform": platform, "start": start, "steps": [
                 {"platform": platform, "force": force}, {"platform": platform},
